@@ -44,6 +44,8 @@ type Contract struct {
 	Guards   []*Guard
 	Assigns  []string
 	HasAssigns bool
+	Reads    []string
+	HasReads bool
 	Decreases *Clause
 	Where    string
 	Notes    []string
@@ -70,6 +72,61 @@ type ContractSet struct {
 	FieldGuards []*FieldGuard
 	Consts      []*ConstCheck
 	Order       []*Contract
+	Defines     map[string]*Define
+}
+
+// Define: //@ define name(p1 T1, p2 T2) = expr — a named specification predicate/function of the
+// contract language, expanded at its uses (the body is evaluated in the state of the use).
+type Define struct {
+	Name   string
+	Pkg    string
+	Params []CVar
+	Body   *Clause
+}
+
+func parseDefine(rest, pkg, where string) (*Define, error) {
+	i := strings.Index(rest, "(")
+	j := strings.Index(rest, ")")
+	k := strings.Index(rest, "=")
+	if i < 0 || j < i || k < j {
+		return nil, fmt.Errorf("%s: malformed define", where)
+	}
+	d := &Define{Name: strings.TrimSpace(rest[:i]), Pkg: pkg}
+	for _, p := range strings.Split(rest[i+1:j], ",") {
+		p = strings.TrimSpace(p)
+		if p == "" {
+			continue
+		}
+		f := strings.Fields(p)
+		if len(f) != 2 {
+			return nil, fmt.Errorf("%s: malformed define parameter %q", where, p)
+		}
+		toks, err := clex(f[1])
+		if err != nil {
+			return nil, err
+		}
+		cp := &cparser{toks: toks, src: f[1]}
+		var ty CType
+		func() {
+			defer func() {
+				if r := recover(); r != nil {
+					err = fmt.Errorf("%s: bad type %q", where, f[1])
+				}
+			}()
+			ty = cp.ctype()
+		}()
+		if err != nil {
+			return nil, err
+		}
+		d.Params = append(d.Params, CVar{f[0], ty})
+	}
+	body := strings.TrimSpace(rest[k+1:])
+	e, err := ParseCExpr(body)
+	if err != nil {
+		return nil, fmt.Errorf("%s: %v", where, err)
+	}
+	d.Body = &Clause{Text: body, Expr: e, Where: where}
+	return d, nil
 }
 
 // ConstCheck: //@ const name == expr   (package-level constant obligations)
@@ -80,7 +137,7 @@ type ConstCheck struct {
 }
 
 var clauseKW = map[string]bool{"props": true, "pure": true, "opaque": true, "trusted": true, "nopanic": true, "lemma": true, "arith": true,
-	"requires": true, "ensures": true, "assume": true, "loop": true, "guard": true, "assigns": true, "decreases": true, "note": true, "cover": true}
+	"requires": true, "ensures": true, "assume": true, "loop": true, "guard": true, "assigns": true, "reads": true, "decreases": true, "note": true, "cover": true}
 
 var reLabel = regexp.MustCompile(`^\[([A-Za-z0-9_.-]+)\]\s*`)
 
@@ -125,7 +182,7 @@ func (cs *ContractSet) ParseContractFile(path, pkgPath string) error {
 			first = first[:i]
 		}
 		first = strings.TrimSuffix(first, ":")
-		if first == "func" || first == "ghost" || first == "fieldguard" || first == "const" || clauseKW[first] {
+		if first == "func" || first == "ghost" || first == "fieldguard" || first == "const" || first == "define" || clauseKW[first] {
 			joined = append(joined, l)
 		} else if len(joined) > 0 {
 			joined[len(joined)-1].text += " " + l.text
@@ -164,6 +221,19 @@ func (cs *ContractSet) ParseContractFile(path, pkgPath string) error {
 			}
 			cs.ByKey[full] = cur
 			cs.Order = append(cs.Order, cur)
+		case "define":
+			d, err := parseDefine(rest, pkgPath, where)
+			if err != nil {
+				return err
+			}
+			if cs.Defines == nil {
+				cs.Defines = map[string]*Define{}
+			}
+			if _, dup := cs.Defines[d.Name]; dup {
+				return fmt.Errorf("%s: duplicate define %s", where, d.Name)
+			}
+			cs.Defines[d.Name] = d
+			cur = nil
 		case "ghost":
 			// ghost name(T1,T2) T
 			m := regexp.MustCompile(`^(\w+)\(([^)]*)\)\s*(\w+)$`).FindStringSubmatch(strings.TrimSpace(rest))
@@ -246,6 +316,11 @@ func (cs *ContractSet) ParseContractFile(path, pkgPath string) error {
 					cur.Assumes = append(cur.Assumes, c)
 				case "decreases":
 					cur.Decreases = c
+				}
+			case "reads":
+				cur.HasReads = true
+				for _, p := range strings.FieldsFunc(rest, func(r rune) bool { return r == ' ' || r == ',' }) {
+					cur.Reads = append(cur.Reads, p)
 				}
 			case "assigns":
 				cur.HasAssigns = true
